@@ -287,18 +287,18 @@ def oracle_cycles(ctx, im):
 
 
 def check_cp(ctx, im):
-    """C04: correspondence with the model's candidates + oracle against Spec.longestChain."""
+    """C04: the reported critical path vs the model of the (repaired) code and vs Spec.longestChain."""
     impl = im.cp()
     total = sum(v for _, v in impl)
-    rep = ctx.driver.ask1("%s %s" % (im.head("cp"), esc(im.ky)))
-    cands = []
-    for c in rep.split("|"):
-        cands.append([(int(t.split(":")[0]), float(Fraction(t.split(":")[1]))) for t in c.split(",") if t])
+    rep = ctx.driver.ask1("%s %s" % (im.head("cptotal"), esc(im.ky)))
     ctx.count("cp_compared")
-    ok = any(len(c) == len(impl) and all(a[0] == b[0] and abs(a[1] - b[1]) < 1e-9 for a, b in zip(c, impl)) for c in cands)
-    if not ok and not im.raised:
-        ctx.correspondence_break("get_critical_path", dict(im.info(), impl=impl, model_candidates=cands[:4]))
-    # oracle
+    try:
+        mtotal = float(Fraction(rep))
+    except Exception:  # noqa
+        mtotal = None
+    if (mtotal is None or abs(mtotal - total) > 1e-9) and not im.raised:
+        ctx.correspondence_break("get_critical_path", dict(im.info(), impl_total=total, impl=impl, model_total=rep))
+    # oracle: the longest chain over the implementation's own graph
     edges = [[int(s), int(d), Fraction(*w.as_integer_ratio())] for (s, d), w in im.edges().items() if not s.endswith("L")]
     longest = float(Fraction(ctx.driver.ask1("speclongest %s %s" % (esc(yenc2(im.lat_infos())), esc(yenc2(edges))))))
     info = dict(im.info(), reported_total=total, longest_chain=longest, marked=impl)
@@ -308,13 +308,29 @@ def check_cp(ctx, im):
         ctx.violation("critical path %.2f is smaller than the longest dependency chain %.2f" % (total, longest), info,
                       key="cp-underreport")
         ctx.count("cp_underreports")
-    # marked lines form a chain
-    es = {(s, d) for (s, d) in im.edges()}
+    # the marked lines form a chain, and their per-line CP latencies are the chain's stages
+    es = im.edges()
     ln = [l for l, _ in impl]
+    lat_of = {i.line_number: float(i.latency or 0) for i in im.kernel}
     for a, b in zip(ln, ln[1:]):
         if (str(a), str(b)) not in es:
             ctx.violation("critical-path lines %d and %d are not linked by a dependency" % (a, b), info)
             break
+    else:
+        if ln:
+            want = []
+            for j, l in enumerate(ln):
+                v = 0.0
+                if j == 0 and len(ln) > 1:
+                    v += es.get(("%dL" % l, str(l)), 0.0)
+                if j + 1 < len(ln):
+                    v += es[(str(l), str(ln[j + 1]))]
+                else:
+                    v += lat_of[l]
+                want.append(v)
+            got = [v for _, v in impl]
+            if any(abs(a - b) > 1e-9 for a, b in zip(want, got)):
+                ctx.violation("per-line CP latencies %s are not the stages of the marked chain %s" % (got, want), info)
     maxlat = max([float(i.latency or 0) for i in im.kernel] + [0.0])
     if total < maxlat - 1e-9:
         ctx.violation("critical path %.2f is smaller than the latency %.2f of a single instruction" % (total, maxlat), info,
